@@ -746,15 +746,16 @@ def stream_step_oracles(run, ev, before):
         exc = run.live_exc.get(step)
         import google.api_core.exceptions as gexc
         retry = isinstance(exc, gexc.GoogleAPICallError) and run.sm._is_retryable_error(exc)
+        # whatever the code's list says, these are never transient: client errors and non-API exceptions must surface
+        must_surface = not isinstance(exc, gexc.GoogleAPICallError) or isinstance(exc, gexc.ClientError)
         for e in before:
-            if retry:
+            o = done_now.get(e)
+            if retry and not must_surface:
                 if e in done_now or not any(x == e and kind == 'GetResult' for x, _, kind in reqs_now):
                     bad.append(('retry', f'execution {e}: after a retryable {ev[1]} it did not re-send a GetQuantumResultRequest '
                                          f'(done={done_now.get(e)}, requests={reqs_now})'))
-            else:
-                o = done_now.get(e)
-                if o is None or o[0] != 'exn' or o[2] != id(exc):
-                    bad.append(('surface', f'execution {e}: non-retryable {ev[1]} did not surface to the caller (got {o})'))
+            elif o is None or o[0] != 'exn' or o[2] != id(exc):
+                bad.append(('surface', f'execution {e}: non-retryable {ev[1]} did not surface to the caller (got {o})'))
     if ev[0] == 'Cancel' and ev[1] in before:
         rpcs = [x for s, x in run.cancels if s == step]
         if rpcs != [ev[1]] or done_now.get(ev[1], ('?',))[0] != 'cancelled':
